@@ -857,6 +857,116 @@ func rulePull(c *Ctx) {
 	c.check(!bad, "C19-PULL", funcName(h), "every configuration change pulls the configuration", h.Pos(),
 		"every path through the handler starts a pull of the client's configuration",
 		"the configuration-change handler can return without pulling the configuration (a throttle, a cache, an early return): a change that arrives on such a path never takes effect")
+	// ... and the pull that was started asks the client: in the function that holds the Configuration request a
+	// return that is not preceded by the request depends only on what was fixed during initialisation (no client,
+	// no capability) - never on state that handlers or other refreshes change (a refresh-in-flight flag, a
+	// time stamp, a generation): the refresh that is skipped may be the one that carries the latest change.
+	mutable := fieldsMutatedOutsideInit(ci)
+	nPull := 0
+	for f := range Reach(ci.g, []*ssa.Function{h}, false) {
+		if !inModule(f) {
+			continue
+		}
+		var pulls []ssa.Instruction
+		for _, b := range f.Blocks {
+			for _, ins := range b.Instrs {
+				if call, ok := ins.(ssa.CallInstruction); ok && call.Common().IsInvoke() && call.Common().Method.Name() == "Configuration" &&
+					strings.HasSuffix(types.TypeString(call.Common().Value.Type(), nil), "protocol.Client") {
+					pulls = append(pulls, ins)
+				}
+			}
+		}
+		if len(pulls) == 0 {
+			continue
+		}
+		nRet := 0
+		for _, b := range f.Blocks {
+			ret, ok := lastInstr(b).(*ssa.Return)
+			if !ok {
+				continue
+			}
+			nRet++
+			after := false
+			for _, pl := range pulls {
+				if pl.Block() == b || pl.Block().Dominates(b) {
+					after = true
+				}
+			}
+			if after {
+				continue
+			}
+			nPull++
+			badWhat := ""
+			for _, cc := range controlCondsPol(b) {
+				for v := range backSlice(cc.Cond) {
+					var addr ssa.Value
+					switch x := v.(type) {
+					case *ssa.UnOp:
+						if x.Op == token.MUL {
+							addr = x.X
+						}
+					case *ssa.Call:
+						if len(x.Call.Args) > 0 && !x.Call.IsInvoke() {
+							addr = x.Call.Args[0] // method on a field (atomic / sync.Map / mutex-protected helper)
+						}
+					}
+					if addr == nil {
+						continue
+					}
+					if field, _, ok := rootSharedField(addr); ok && mutable[field] {
+						badWhat = field
+					}
+				}
+			}
+			c.check(badWhat == "", "C19-PULL", funcName(f), fmt.Sprintf("return #%d before the configuration request depends on initialisation only", nRet), ret.Pos(),
+				"the refresh gives up before asking the client only for reasons fixed at initialisation (no client, no capability)",
+				"a configuration refresh can end before it asks the client depending on "+badWhat+", which changes while the server runs (a refresh-in-flight flag, a throttle, a generation): the refresh that gives up may be the one started for the latest change, whose values then never take effect")
+		}
+	}
+	c.census("C19-PULL", "returns before the configuration request in the refresh", nPull, 1)
+}
+
+// fieldsMutatedOutsideInit: fields of the shared structs that are stored to - or, for sync / atomic typed fields,
+// have a mutating method called on them - in a function that does not belong to the initialisation phase.
+func fieldsMutatedOutsideInit(ci *concInfo) map[string]bool {
+	out := map[string]bool{}
+	mutating := map[string]bool{"Store": true, "Swap": true, "CompareAndSwap": true, "Add": true, "Delete": true, "LoadOrStore": true, "LoadAndDelete": true, "CompareAndDelete": true, "Clear": true, "And": true, "Or": true}
+	for _, f := range ci.funcs {
+		if ci.initFns[f] {
+			continue
+		}
+		for _, b := range f.Blocks {
+			for _, ins := range b.Instrs {
+				switch x := ins.(type) {
+				case *ssa.Store:
+					if field, fa, ok := rootSharedField(x.Addr); ok {
+						if _, fresh := fa.X.(*ssa.Alloc); !fresh {
+							out[field] = true
+						}
+					}
+				case *ssa.MapUpdate:
+					if ld, ok := x.Map.(*ssa.UnOp); ok {
+						if field, _, ok := rootSharedField(ld.X); ok {
+							out[field] = true
+						}
+					}
+				case ssa.CallInstruction:
+					cm := x.Common()
+					if cm.IsInvoke() || len(cm.Args) == 0 {
+						continue
+					}
+					cal := cm.StaticCallee()
+					if cal == nil || cal.Signature.Recv() == nil || !mutating[cal.Name()] || !isSyncType(cal.Signature.Recv().Type()) {
+						continue
+					}
+					if field, _, ok := rootSharedField(cm.Args[0]); ok {
+						out[field] = true
+					}
+				}
+			}
+		}
+	}
+	return out
 }
 
 // updateUsesArg: every value the update function returns is computed from its (last) parameter.
